@@ -5,6 +5,8 @@ package scenarios
 // Rename / SetMeta take effect in issue order).
 
 import (
+	"bytes"
+	"os"
 	"fmt"
 	"sort"
 	"strings"
@@ -304,5 +306,47 @@ func TestSyncedWriteAfterRecoverySurvivesCrash(t *testing.T) {
 	}
 	if bad > 0 {
 		t.Fatalf("%d crash points lose a synced write made after recovery", bad)
+	}
+}
+
+// obligation leveldb.(*DB).recoverJournalRO (C18): a DB opened read-only serves all previously written data including
+// data still only in the journal - whatever the state the previous run left behind. Crash at every instant of a run
+// that rotates its journal several times; every disk image must open read-only (unless there is no DB in it yet)
+// and show what a normal open of the same image shows.
+func TestReadOnlyOpenOfEveryCrashImageServesTheJournals(t *testing.T) {
+	o := &opt.Options{DisableLargeBatchTransaction: true, WriteBuffer: 8 << 10}
+	ro := &opt.Options{DisableLargeBatchTransaction: true, WriteBuffer: 8 << 10, ReadOnly: true}
+	st := newCrashStorage(t, nil)
+	db, err := leveldb.Open(st, o)
+	must(t, err)
+	val := bytes.Repeat([]byte("v"), 300)
+	for i := 0; i < 120; i++ {
+		must(t, db.Put([]byte(fmt.Sprintf("key-%04d", i)), val, &opt.WriteOptions{Sync: true}))
+	}
+	total := st.n()
+	db.Close()
+	bad := 0
+	for n := 0; n <= total && bad < 5; n++ {
+		img := st.image(n)
+		rw, err := leveldb.Open(newCrashStorage(t, img), o)
+		if err != nil {
+			continue // C04's business, checked elsewhere
+		}
+		want := dump(t, rw)
+		rw.Close()
+		rdb, err := leveldb.Open(newCrashStorage(t, img), ro)
+		if err != nil {
+			if os.IsNotExist(err) && len(want) == 0 {
+				continue // no DB in the image yet
+			}
+			t.Errorf("image after op #%d: read-only open failed: %v (a normal open shows %d keys)", n, err, len(want))
+			bad++
+			continue
+		}
+		if d := diffMaps(want, dump(t, rdb)); d != "" {
+			t.Errorf("image after op #%d: read-only open shows other data than a normal open: %s", n, d)
+			bad++
+		}
+		rdb.Close()
 	}
 }
